@@ -536,8 +536,9 @@ func symConv(utDst, utSrc types.Type, x value) (value, bool) {
 	return nil, false
 }
 
-// sstrIter ranges over a symbolic string; symbolic bytes must be ASCII
-// (the other side of that fork ends the path as unsupported).
+// sstrIter ranges over a symbolic string: UTF-8 decoding as utf8.DecodeRuneInString does it, forking
+// on the class of each byte (lead byte of a 1-4 byte sequence, continuation in the accepted range,
+// anything else: U+FFFD and one byte consumed).
 type sstrIter struct {
 	s  sstr
 	ps *pathState
@@ -548,18 +549,122 @@ func (it *sstrIter) next() tuple {
 	if it.i >= len(it.s.b) {
 		return tuple{false, nil, nil}
 	}
-	b := it.s.b[it.i]
 	idx := it.i
-	if b.IsConst() {
-		if b.Val >= 0x80 {
-			panic(unsupported{"range over string mixing symbolic and non-ASCII bytes"})
+	b0 := it.s.b[idx]
+	ps := it.ps
+	inRange := func(b *smt.Term, lo, hi uint64) *smt.Term {
+		return smt.And(smt.BvCmp(smt.OpBvUle, smt.BV(lo, 8), b), smt.BvCmp(smt.OpBvUle, b, smt.BV(hi, 8)))
+	}
+	is := func(c *smt.Term) bool {
+		if c.IsTrue() {
+			return true
 		}
-		it.i++
-		return tuple{true, idx, int32(b.Val)}
+		if c.IsFalse() {
+			return false
+		}
+		return ps.decide(c)
 	}
-	if !it.ps.decide(smt.BvCmp(smt.OpBvUlt, b, smt.BV(0x80, 8))) {
-		panic(unsupported{"range over non-ASCII symbolic byte"})
+	bits := func(b *smt.Term, mask uint64, shift uint64) *smt.Term {
+		return smt.BvBin(smt.OpBvShl, smt.Zext(smt.BvBin(smt.OpBvAnd, b, smt.BV(mask, 8)), 32), smt.BV(shift, 32))
 	}
-	it.i++
-	return tuple{true, idx, sym{t: smt.Zext(b, 32), k: types.Int32, ps: it.ps}}
+	mk := func(t *smt.Term, size int) tuple {
+		it.i += size
+		if t.IsConst() {
+			return tuple{true, idx, int32(t.Val)}
+		}
+		return tuple{true, idx, sym{t: t, k: types.Int32, ps: ps}}
+	}
+	bad := func() tuple { return mk(smt.BV(0xFFFD, 32), 1) }
+	// the decoding of utf8.DecodeRuneInString, one fork per class of bytes
+	if is(smt.BvCmp(smt.OpBvUlt, b0, smt.BV(0x80, 8))) {
+		return mk(smt.Zext(b0, 32), 1)
+	}
+	rest := it.s.b[idx+1:]
+	cont := func(k int) bool { return len(rest) > k && is(inRange(rest[k], 0x80, 0xBF)) }
+	or3 := func(a, b, c *smt.Term) *smt.Term {
+		return smt.BvBin(smt.OpBvOr, smt.BvBin(smt.OpBvOr, a, b), c)
+	}
+	switch {
+	case is(inRange(b0, 0xC2, 0xDF)):
+		if !cont(0) {
+			return bad()
+		}
+		return mk(smt.BvBin(smt.OpBvOr, bits(b0, 0x1F, 6), bits(rest[0], 0x3F, 0)), 2)
+	case is(inRange(b0, 0xE0, 0xEF)):
+		if len(rest) < 2 {
+			return bad()
+		}
+		lo, hi := uint64(0x80), uint64(0xBF)
+		if is(smt.Eq(b0, smt.BV(0xE0, 8))) {
+			lo = 0xA0
+		} else if is(smt.Eq(b0, smt.BV(0xED, 8))) {
+			hi = 0x9F
+		}
+		if !is(inRange(rest[0], lo, hi)) || !cont(1) {
+			return bad()
+		}
+		return mk(or3(bits(b0, 0x0F, 12), bits(rest[0], 0x3F, 6), bits(rest[1], 0x3F, 0)), 3)
+	case is(inRange(b0, 0xF0, 0xF4)):
+		if len(rest) < 3 {
+			return bad()
+		}
+		lo, hi := uint64(0x80), uint64(0xBF)
+		if is(smt.Eq(b0, smt.BV(0xF0, 8))) {
+			lo = 0x90
+		} else if is(smt.Eq(b0, smt.BV(0xF4, 8))) {
+			hi = 0x8F
+		}
+		if !is(inRange(rest[0], lo, hi)) || !cont(1) || !cont(2) {
+			return bad()
+		}
+		return mk(smt.BvBin(smt.OpBvOr, or3(bits(b0, 0x07, 18), bits(rest[0], 0x3F, 12), bits(rest[1], 0x3F, 6)), bits(rest[2], 0x3F, 0)), 4)
+	}
+	return bad()
+}
+
+// SelfTestRuneIter compares the symbolic UTF-8 decoder of range-over-string with the runtime's on
+// concrete byte strings pushed through the same code (constant terms): every string of up to two
+// bytes, and strings of three and four bytes over the bytes where the decoding rules change.
+func SelfTestRuneIter() (checked int, mismatch string) {
+	edges := []byte{0x00, 0x41, 0x7F, 0x80, 0x8F, 0x90, 0x9F, 0xA0, 0xBF, 0xC0, 0xC1, 0xC2, 0xDF, 0xE0, 0xE1, 0xEC, 0xED, 0xEE, 0xEF, 0xF0, 0xF1, 0xF3, 0xF4, 0xF5, 0xFF}
+	var all []byte
+	for b := 0; b < 256; b++ {
+		all = append(all, byte(b))
+	}
+	check := func(bs []byte) string {
+		ts := make([]*smt.Term, len(bs))
+		for k, b := range bs {
+			ts[k] = smt.BV(uint64(b), 8)
+		}
+		it := &sstrIter{s: sstr{b: ts}, ps: nil}
+		for i, r := range string(bs) {
+			got := it.next()
+			if got[0] != true || got[1] != i || got[2] != int32(r) {
+				return fmt.Sprintf("rune decoding of % x at %d: got %v, runtime %d", bs, i, got, r)
+			}
+		}
+		if got := it.next(); got[0] != false {
+			return fmt.Sprintf("rune decoding of % x does not end where the runtime's does", bs)
+		}
+		checked++
+		return ""
+	}
+	var rec func(prefix []byte, n int, alphabet []byte) string
+	rec = func(prefix []byte, n int, alphabet []byte) string {
+		if n == 0 {
+			return check(prefix)
+		}
+		for _, b := range alphabet {
+			if m := rec(append(append([]byte{}, prefix...), b), n-1, alphabet); m != "" {
+				return m
+			}
+		}
+		return ""
+	}
+	for n, alphabet := range [][]byte{nil, all, all, edges, edges} {
+		if m := rec(nil, n, alphabet); m != "" {
+			return checked, m
+		}
+	}
+	return checked, ""
 }
